@@ -555,6 +555,7 @@ Proof.
   destruct (check_for_existence upper oem ss dst None) as [[dv|a]| | |] eqn:C; try (injection H as _ <-; exact Hs).
   - destruct (negb (Lfn.ev_end ev =? Lfn.ev_end dv)); [injection H as _ <-; exact Hs|].
     destruct (has_exact_name ev dst); [injection H as _ <-; exact Hs|].
+    destruct (other_match upper oem ss ev dst) as [[|]| | |]; try (injection H as _ <-; exact Hs).
     refine (rename_rewrite_shape n oem free ss ev dst _ r ss' Hs HL _ H).
     exact (proj2 (proj2 (listed_range oem ss ev (proj2 Hs) HL))).
   - destruct (check_fresh_inv _ _ _ _ _ _ C) as (_ & HLa & _).
@@ -1163,7 +1164,8 @@ Proof.
     - injection Ha as _ <-. apply (write_entry_fixed_root_full_unchanged free ss dst _ _ ss1 Hb W). intros; discriminate. }
   destruct (check_for_existence upper oem ss dst None) as [[dv|a]| | |]; try (injection H as _ <-; reflexivity).
   - destruct (negb (Lfn.ev_end ev =? Lfn.ev_end dv)); [injection H as _ <-; reflexivity|].
-    destruct (has_exact_name ev dst); [injection H as _ <-; reflexivity|]. exact (Hrw _ H).
+    destruct (has_exact_name ev dst); [injection H as _ <-; reflexivity|].
+    destruct (other_match upper oem ss ev dst) as [[|]| | |]; try (injection H as _ <-; reflexivity). exact (Hrw _ H).
   - exact (Hrw _ H).
 Qed.
 
@@ -1238,7 +1240,9 @@ Lemma rename_in_dir_lists upper oem k free ss src dst es ls ss' :
         ((exists a, check_for_existence upper oem ss dst None = Ok (Fresh a) /\ e_sfn ne = a /\ sfn_legal_b a = true /\
                     ~ In a (map e_sfn es)) \/
          (exists dv, check_for_existence upper oem ss dst None = Ok (Exists dv) /\ Lfn.ev_end dv = Lfn.ev_end ev /\
-                     has_exact_name ev dst = false /\ e_sfn ne = e_sfn e)))).
+                     has_exact_name ev dst = false /\ e_sfn ne = e_sfn e /\
+                     (forall l other, dir_entries oem ss = Ok l -> In other l -> Lfn.ev_end other <> Lfn.ev_end ev ->
+                                      matches upper oem dst other = false))))).
 Proof.
   intros H0 Hb Hs Hby H32 H. unfold rename_in_dir, lift in H.
   destruct (find_entry upper oem ss src None) as [ev| | |] eqn:F; try discriminate.
@@ -1252,11 +1256,13 @@ Proof.
     apply N.eqb_eq in EE.
     destruct (has_exact_name ev dst) eqn:HX.
     + injection H as <-. left. exists dv. repeat split; congruence.
-    + right. rewrite Hn in H.
+    + right. destruct (other_match upper oem ss ev dst) as [[|]| | |] eqn:OM; try discriminate.
+      pose proof (other_match_false upper oem ss ev dst OM) as Hom. rewrite Hn in H.
       pose proof (decoded_sfn_length false ss es ls [] e H0 H32 Hin) as L1.
       destruct (rename_rewrite_lists k free ss ev dst (e_sfn e) es ls ss' e se H0 Hb Hby Hin Hbg Hen Hdec Hvol Hat Hsz Hcl L1)
         as (x & y & c & d & ne & G1 & G2 & G3 & G4 & G5 & G6 & G7 & G8 & G9); try (rewrite Hnm; assumption); try assumption.
-      exists x, y, c, d, ne. do 8 (split; [assumption|]). right. exists dv. repeat split; congruence.
+      exists x, y, c, d, ne. do 8 (split; [assumption|]). right. exists dv.
+      split; [reflexivity|]. split; [congruence|]. split; [reflexivity|]. split; [exact G6|exact Hom].
   - right. destruct (check_fresh_inv _ _ _ _ _ _ C) as (_ & HL & l & DE & _ & AF).
     pose proof (sfn_unique _ _ _ _ AF) as HU. rewrite (dir_entries_sfns false oem ss l es ls [] DE H0) in HU.
     destruct (sfn_legal_first a HL) as [L1 [L2 L3]].
@@ -1307,7 +1313,9 @@ Theorem vol_rename_decodes upper oem im src dst im' :
                     ~ In a (map e_sfn (map node_entry (v_root (abs im))))) \/
          (exists dv, check_for_existence upper oem (root_region_slots (parse_geom im) im) dst None = Ok (Exists dv) /\
                      Lfn.ev_end dv = Lfn.ev_end ev /\ has_exact_name ev dst = false /\
-                     e_sfn (node_entry n') = e_sfn (node_entry n))) /\
+                     e_sfn (node_entry n') = e_sfn (node_entry n) /\
+                     (forall l other, dir_entries oem (root_region_slots (parse_geom im) im) = Ok l -> In other l ->
+                                      Lfn.ev_end other <> Lfn.ev_end ev -> matches upper oem dst other = false))) /\
         v_root_issues (abs im') = [] /\ v_labels (abs im') = v_labels (abs im) /\
         v_geom (abs im') = v_geom (abs im) /\ v_status (abs im') = v_status (abs im))).
 Proof.
@@ -1355,9 +1363,9 @@ Proof.
     split; [exact L1|]. split; [exact L2|]. split; [exact A1|]. split; [exact A2|]. split; [exact A3|].
     split.
     { rewrite map_node_entry.
-      destruct Hsub as [(a & C & S1 & S2 & S3)|(dv & C & EE & HX & S1)].
+      destruct Hsub as [(a & C & S1 & S2 & S3)|(dv & C & EE & HX & S1 & S2)].
       - left. exists a. repeat split; assumption.
-      - right. exists dv. repeat split; assumption. }
+      - right. exists dv. do 4 (split; [assumption|]). exact S2. }
     repeat split; reflexivity.
 Qed.
 
